@@ -20,6 +20,8 @@
 #include <stdio.h>    // for fprintf, NULL, fputs, perror, FILE, fclose, fopen
 #include <string.h>   // for strcmp
 
+#include "verif_hooks.h"  // for VERIF_LOOP
+
 #define ARRAYSIZE(arr) (sizeof(arr)/sizeof(arr[0]))
 
 /* We use the initializer BAD to signal that a dialect has no mapping
@@ -272,7 +274,7 @@ bool build_mapping(unsigned dialect, struct expansion_map *m)
 
   assert(base_dialect <= LAST_BASE_MAP_DIALECT);
 
-  for (char i = 0; ; ++i)
+  for (char i = 0; ; ++i) VERIF_LOOP(bm_ascii)
     {
       m->ascii[(unsigned int)i][0] = i;
       m->ascii[(unsigned int)i][1] = 0;
@@ -281,12 +283,12 @@ bool build_mapping(unsigned dialect, struct expansion_map *m)
 	break;
     }
   /* Set up ASCII identity mappings. */
-  for (char i = 0x11; i < 0x7F; ++i)
+  for (char i = 0x11; i < 0x7F; ++i) VERIF_LOOP(bm_identity)
     {
       m->base[(unsigned int)i] = m->ascii[(unsigned int)i];	/* some of these values will be overwritten. */
     }
 
-  for (unsigned int i = 0; i < NUM_TOKENS; ++i)
+  for (unsigned int i = 0; i < NUM_TOKENS; ++i) VERIF_LOOP(bm_base)
     {
       tok = base_map[i].token_value;
       const char *s = base_map[i].dialect_mappings[base_dialect];
@@ -329,7 +331,7 @@ bool build_mapping(unsigned dialect, struct expansion_map *m)
 static void build_invalid_map(const char **output)
 {
   unsigned int i;
-  for (i = 0u; i < NUM_TOKENS; ++i)
+  for (i = 0u; i < NUM_TOKENS; ++i) VERIF_LOOP(build_invalid_map)
     output[i] = invalid;
 }
 
@@ -455,7 +457,7 @@ static struct dialect_mapping dialects[] =
 bool set_dialect(const char* name, enum Dialect* d)
 {
   const struct dialect_mapping *m;
-  for (m = dialects; m->name != NULL; ++m)
+  for (m = dialects; m->name != NULL; ++m) VERIF_LOOP(set_dialect)
     {
       if (0 == strcmp(name, m->name))
 	{
@@ -468,7 +470,7 @@ bool set_dialect(const char* name, enum Dialect* d)
 
 static bool any_tokens_valid(const char *map[NUM_TOKENS])
 {
-  for (unsigned int i = 0; i < NUM_TOKENS; ++i)
+  for (unsigned int i = 0; i < NUM_TOKENS; ++i) VERIF_LOOP(any_tokens_valid)
     {
       if (map[i] != invalid)
 	return true;
@@ -485,7 +487,7 @@ static bool dump_map(FILE *f, const char* dialect_name, const char* map_name, co
 	return false;
       return true;
     }
-  for (unsigned int i = 0; i < NUM_TOKENS; ++i)
+  for (unsigned int i = 0; i < NUM_TOKENS; ++i) VERIF_LOOP(dump_map)
     {
       const char *dest = map[i];
       if (map[i][0] == (char)i && map[i][1] == 0)
@@ -499,7 +501,7 @@ static bool dump_map(FILE *f, const char* dialect_name, const char* map_name, co
 static bool internal_dump_all_dialects_to_file(FILE *f)
 {
   const struct dialect_mapping *m;
-  for (m = dialects; m->name != NULL; ++m)
+  for (m = dialects; m->name != NULL; ++m) VERIF_LOOP(dump_all_dialects)
     {
       struct expansion_map xmap;
       if (m->synonym_for != NULL)
@@ -552,7 +554,7 @@ bool print_dialects(FILE *f, const char *default_dialect_name)
   bool first;
   if (fprintf(f, "Known dialects are: ") < 0)
     return false;
-  for (first = true, m = dialects; m->name != NULL; ++m, first=false)
+  for (first = true, m = dialects; m->name != NULL; ++m, first=false) VERIF_LOOP(print_dialects)
     {
       if (!first)
 	{
